@@ -638,6 +638,19 @@ func (s *Stream) ProcessSync(data map[string]any) (map[string]any, error) {
 		return nil, fmt.Errorf("Synchronous processing is not supported for MATCH_RECOGNIZE queries.")
 	}
 
+	// A synchronous call runs the pipeline and the sinks in the caller's goroutine.
+	// Register it with the lifecycle tracker (serialized with Stop's flag set, like
+	// Start) so that Stop joins in-flight calls and no sink is invoked once Stop has
+	// returned; after Stop the call is refused.
+	s.startMu.Lock()
+	if atomic.LoadInt32(&s.stopped) != 0 {
+		s.startMu.Unlock()
+		return nil, fmt.Errorf("stream has been stopped")
+	}
+	s.lifecycle.Add(1)
+	s.startMu.Unlock()
+	defer s.lifecycle.Done()
+
 	// Directly process data and return result. processDirectDataSync applies the
 	// filter after JOIN enrichment so WHERE can reference joined columns.
 	return s.processDirectDataSync(data)
